@@ -285,4 +285,7 @@ def run(ctx):
     accessor(ctx)
     level_source(ctx)
     layer_cap(ctx)
+    import common as _common
+    _common.rejection_inventory(ctx, 'V8')          # no new refusal of layer forests the format allows (seed C09-n: level drops of two)
+    _common.arm_state_independence(ctx, 'V2')       # layers and cels are collected independently of their order in the file (seed C09-m)
     ctx.samples = [i for i in ctx.instances][:14]
